@@ -4,7 +4,8 @@
    and C16 (the redirect bound and the follow switch reach the client as given).                                            *)
 EXTENDS Naturals, TLC
 CONSTANTS DevVerifyDisablesTofu,     \* deviation: --verify-ssl switches trust-on-first-use off
-          DevSchemePrefixed          \* deviation: "gemini://" is put in front of any URL that does not start with exactly that
+          DevSchemePrefixed,         \* deviation: "gemini://" is put in front of any URL that does not start with exactly that
+          DevMarkupInterpreted       \* deviation: the answer's meta is printed through the console's markup language
 UrlKinds == {"lower", "upperScheme", "mixedScheme", "upperHost", "port", "defaultPort", "v6", "noPath", "query", "reserved"}
 Redirects == {"0", "1", "5", "7"}         \* --max-redirects, as written on the command line ("5" is the default)
 VARIABLES trustFlag,      \* "default" | "--trust" | "--no-trust"
@@ -12,14 +13,20 @@ VARIABLES trustFlag,      \* "default" | "--trust" | "--no-trust"
           maxFlag,        \* "default" or a number
           noRedirects, timeoutFlag,
           urlKind,        \* how the URL on the command line is spelled (all of these the library accepts)
+          answer,         \* what the client hands back: "content" (a 2x) or a 3x whose target is "plain" text, contains square
+                          \* brackets that read as console markup ("markup": filter[name]=x) or as a stray closing tag ("closing": a[/]b)
           out
-vars == <<trustFlag, verifyFlag, maxFlag, noRedirects, timeoutFlag, urlKind, out>>
+vars == <<trustFlag, verifyFlag, maxFlag, noRedirects, timeoutFlag, urlKind, answer, out>>
+Answers == {"content", "plain", "markup", "closing"}
 Pending == [k |-> "pending"]
 Init == /\ trustFlag \in {"default", "--trust", "--no-trust"} /\ verifyFlag \in {"default", "--verify-ssl", "--no-verify-ssl"}
         /\ maxFlag \in {"default"} \cup Redirects /\ noRedirects \in BOOLEAN /\ timeoutFlag \in {"default", "7.5"}
         /\ urlKind \in UrlKinds
         \* the spelling of the URL and the options do not interact: spellings are swept with default options
         /\ (urlKind # "lower" => (trustFlag = "default" /\ verifyFlag = "default" /\ maxFlag = "default" /\ ~noRedirects /\ timeoutFlag = "default"))
+        /\ answer \in Answers
+        \* a 3x comes back to the command only when following is off; shown with default options otherwise
+        /\ (answer # "content" => (noRedirects /\ urlKind = "lower" /\ trustFlag = "default" /\ verifyFlag = "default" /\ maxFlag = "default" /\ timeoutFlag = "default"))
         /\ out = Pending
 Eval == /\ out = Pending
         /\ out' = [k |-> "called",
@@ -29,8 +36,12 @@ Eval == /\ out = Pending
                    follow |-> ~noRedirects,
                    \* the URL the client is asked to fetch denotes what the user typed
                    url |-> IF DevSchemePrefixed /\ urlKind \in {"upperScheme", "mixedScheme"} THEN "other" ELSE "same",
-                   timeout |-> IF timeoutFlag = "default" THEN "30.0" ELSE timeoutFlag]
-        /\ UNCHANGED <<trustFlag, verifyFlag, maxFlag, noRedirects, timeoutFlag, urlKind>>
+                   timeout |-> IF timeoutFlag = "default" THEN "30.0" ELSE timeoutFlag,
+                   \* what the user is shown of a 3x that was not followed: its target, character for character
+                   shown |-> IF answer = "content" THEN "n/a"
+                             ELSE IF DevMarkupInterpreted /\ answer = "markup" THEN "altered"
+                             ELSE IF DevMarkupInterpreted /\ answer = "closing" THEN "crashed" ELSE "verbatim"]
+        /\ UNCHANGED <<trustFlag, verifyFlag, maxFlag, noRedirects, timeoutFlag, urlKind, answer>>
 Spec == Init /\ [][Eval]_vars
 Done == out.k = "called"
 \* C03 / C11: the pin check is in force unless --no-trust was given - whatever else is on the command line
@@ -39,5 +50,7 @@ TofuAsRequested == Done => (out.tofu = (trustFlag # "--no-trust"))
 RedirectsAsRequested == Done => (out.max = (IF maxFlag = "default" THEN "5" ELSE maxFlag) /\ out.follow = ~noRedirects)
 \* C19: the command hands the library the URL it was given (same host, port, path and query), however it is spelled
 UrlAsGiven == Done => out.url = "same"
+\* C16: with following off the 3x answer reaches the user unchanged
+ShownUnchanged == Done => out.shown \in {"n/a", "verbatim"}
 VerifyAsRequested == Done => (out.verify = (verifyFlag = "--verify-ssl"))
 =============================================================================
